@@ -169,6 +169,11 @@ def getitem(interp, v, idx, numba=False, node=None):
             return ops.pick(v.e, i)
         if isinstance(idx, tuple) and len(idx) == 1:
             return getitem(interp, v, idx[0], numba, node)
+        if isinstance(idx, Vec) and all(isinstance(x, int) and not isinstance(x, bool) for x in idx.e):
+            try:
+                return Vec([v.e[x] for x in idx.e])
+            except IndexError:
+                raise RaiseSignal('IndexError', 'index out of bounds')
         if isinstance(idx, tuple) and len(idx) == 2 and idx[0] is None and isinstance(idx[1], SliceVal) \
                 and idx[1].start is None and idx[1].stop is None and idx[1].step is None:
             return Arr(1, (lambda k, v=v: Vec(list(v.e), view=True)), np=True, cols=len(v.e), view=True)   # v[None, :]
@@ -1330,6 +1335,7 @@ def builtin(name):
             'min': _mk('min', _b_min), 'max': _mk('max', _b_max), 'sum': _mk('sum', _b_sum),
             'round': _mk('round', _b_round), 'isinstance': _mk('isinstance', _b_isinstance),
             'type': _mk('type', _b_type), 'enumerate': _mk('enumerate', _b_enumerate), 'zip': _mk('zip', _b_zip),
+            'pow': _mk('pow', lambda i, a, k: ops.arith('**', a[0], a[1])),
             'sorted': _mk('sorted', _b_sorted), 'filter': _mk('filter', _b_filter), 'reversed': _mk('reversed', _b_reversed), 'any': _mk('any', _b_any), 'all': _mk('all', _b_all),
             'ord': _mk('ord', _b_ord), 'hasattr': _mk('hasattr', _b_hasattr), 'getattr': _mk('getattr', _b_getattr),
             'setattr': _mk('setattr', _b_setattr), 'print': _mk('print', _b_print),
@@ -1338,7 +1344,7 @@ def builtin(name):
             'int': TypeRef('int'), 'float': TypeRef('float'), 'bool': TypeRef('bool'), 'str': TypeRef('str'),
             'list': TypeRef('list'), 'tuple': TypeRef('tuple'), 'dict': TypeRef('dict'), 'set': TypeRef('set'),
             'slice': TypeRef('slice'), 'object': TypeRef('object'),
-            'True': True, 'False': False, 'None': None,
+            'True': True, 'False': False, 'None': None, 'nan': NAN,
         }
         for e in BUILTIN_EXC:
             _BUILTINS[e] = ExcRef(e)
